@@ -40,6 +40,7 @@ type Prog struct {
 	extImpure  map[*ssa.Function]bool            // calls (transitively) an external function that is not in the effect-free table
 
 	noExpand  map[*ssa.Function]bool // functions whose (value, error) results keep their call atoms
+	keepCalls map[*ssa.Function]bool // anchors: their calls are never replaced by the returned expression (nil until anchors are resolved)
 	implCache map[string][]*ssa.Function
 	tagLabel  string
 }
